@@ -12,6 +12,7 @@
 package c04
 
 import (
+	"Havoc/pkg/packager"
 	"bytes"
 	"encoding/base64"
 	"encoding/binary"
@@ -276,6 +277,8 @@ func runSeq(c *lib.Ctx, cs seqCase) (sig, what string) {
 type chunkCase struct {
 	Kind string `json:"kind"` // "chunk"
 	Size int    `json:"size"`
+	// List: the operator looks at the queue (`task list`) while the chunks are waiting
+	List bool `json:"list,omitempty"`
 }
 
 func runChunk(c *lib.Ctx, cs chunkCase) (sig, what string) {
@@ -297,6 +300,15 @@ func runChunk(c *lib.Ctx, cs chunkCase) (sig, what string) {
 	path := "C:\\up\\file.bin"
 	rig.Task(w.r.TS, w.sim.Hex(), 15, id, map[string]any{"SubCommand": "upload",
 		"Arguments": base64.StdEncoding.EncodeToString([]byte(path)) + ";" + base64.StdEncoding.EncodeToString(file)})
+	if cs.List {
+		w.next++
+		// (not a one-time package: the teamserver drops those before running the command)
+		w.r.TS.DispatchEvent(packager.Package{
+			Head: packager.Head{Event: packager.Type.Session.Type, User: "alice"},
+			Body: packager.Body{SubEvent: packager.Type.Session.Input, Info: map[string]any{"DemonID": w.sim.Hex(), "CommandID": "Teamserver", "Command": "task::list",
+				"TaskID": fmt.Sprintf("%08X", w.next), "CommandLine": "task list"}}})
+		c.Observe("chunk.task-list-while-queued", 1)
+	}
 	var got []byte
 	var fileID uint32
 	seenChunk := false
@@ -630,6 +642,11 @@ func run(c *lib.Ctx) {
 			if s, m := runChunk(c, cs); s != "" {
 				c.Violation(s, m, cs)
 			}
+		case "svc":
+			c.Eval()
+			if s, m := runSvc(c, 40); s != "" {
+				c.Violation(s, m, map[string]any{"kind": "svc", "rounds": 40})
+			}
 		default:
 			c.Inconclusive("concurrent histories are schedule dependent and are not replayed")
 		}
@@ -724,16 +741,34 @@ func run(c *lib.Ctx) {
 			c.Violation(s, m, cs)
 		}
 	}
+	// --- a third-party service queues tasks for its agent (one shard) ---
+	if c.Mine(7) {
+		rounds := 12
+		if c.Thorough() {
+			rounds = 150
+		}
+		c.Cur("svc", []byte(`{"kind":"svc"}`))
+		c.Eval()
+		c.Distinct(fmt.Sprintf("svc/%d", c.Seed))
+		if s, m := runSvc(c, rounds); s != "" {
+			c.Violation(s, m, map[string]any{"kind": "svc", "rounds": rounds})
+		}
+	}
 	// --- chunking (memory heavy: one size per shard and round) ---
 	csizes := []int{0, 1, maxResp - 1, maxResp, maxResp + 1}
 	if c.Thorough() {
 		csizes = append(csizes, 2*maxResp-1, 2*maxResp, 2*maxResp+1, 12345678)
 	}
-	for i, sz := range csizes {
+	ccases := []chunkCase{{Kind: "chunk", Size: 1000, List: true}, {Kind: "chunk", Size: 70000, List: true}, {Kind: "chunk", Size: 0, List: true}}
+	for _, sz := range csizes {
+		ccases = append(ccases, chunkCase{Kind: "chunk", Size: sz})
+	}
+	for i, cs := range ccases {
 		if !c.Mine(i) {
 			continue
 		}
-		cs := chunkCase{Kind: "chunk", Size: sz}
+		sz := cs.Size
+		_ = sz
 		b, _ := json.Marshal(cs)
 		c.Cur("chunk", b)
 		c.Eval()
